@@ -242,6 +242,19 @@ func token(i int, s step) string {
 // over: the transaction of this call has been ended at the database (by whomever).
 func (l *evlog) over() bool { return l.count("commit")+l.count("rollback") > 0 }
 
+// open: a transaction was begun at the database and has not been ended there.
+func (l *evlog) open() bool {
+	l.mu.Lock()
+	begun := false
+	for _, e := range l.evs {
+		if e["ev"] == "begin" && e["ok"] == true {
+			begun = true
+		}
+	}
+	l.mu.Unlock()
+	return begun && !l.over()
+}
+
 func mkStep(l *evlog, i int, s step, cancel func()) gormx.GormProcFn {
 	return func(txn *gorm.DB) error {
 		l.add(tr.E{"ev": "step", "i": i})
@@ -262,7 +275,7 @@ func mkStep(l *evlog, i int, s step, cancel func()) gormx.GormProcFn {
 			h.Rollback()
 		}
 		if cancel != nil {
-			alive := !l.over()
+			alive := l.open()
 			cancel()
 			if alive { // database/sql rolls back on its own goroutine: wait for it to reach the driver
 				for n := 0; !l.over(); n++ {
